@@ -128,7 +128,8 @@ class Scen:
 
 class C18(SeqProp):
     pid = "C18"
-    spec_import = "Require Import PV.Spec.SpecC18."
+    spec_import = "Require Import PV.Spec.SpecC18.\nRequire PV.Proofs.C12Spec."
+    dom_fn = "PV.Proofs.C12Spec.ops_in_domain"     # the domain of c12_spec_model / c18_spec_model
     spec_fn = "spec_c18"
     rule = ("each scenario is a history over one shared histogram (plain or a vector child) and 0-2 local histograms of it plus clones: timers are "
             "started on shared and local handles and ended in all four ways (stop_and_record, observe_duration, stop_and_discard, drop; shared "
